@@ -1,58 +1,82 @@
 ----------------------------- MODULE MC_ConfParse -----------------------------
-(* Bounded models of ConfParse for TLC: alphabets of the enumerated file families, the            *)
-(* configurations (registered contexts x null-handler mode x family) and the behaviour emitter:   *)
-(* one JSON line per complete behaviour (input file tree, expected handler calls, return value,   *)
-(* final table indices).                                                                          *)
+(* Bounded models of ConfParse for TLC: the table of lines (files hold indices into it), the      *)
+(* alphabets of the enumerated file families, the parametric families (nesting, include chains,   *)
+(* over-long lines, many registrations), the configurations (registered contexts x null-handler   *)
+(* mode x family) and the behaviour emitter: one JSON line per complete behaviour (input file     *)
+(* tree, expected handler calls, return value, final table indices).                              *)
 EXTENDS ConfParse, Json
 
-Inc(f) == IncLine(f)
-AlphaBase == {
-    L(<<35, 32, 99>>),                                   \* '# c'
-    L(<<98, 101, 103, 105, 110, 32, 65>>),               \* 'begin A'
-    L(<<98, 101, 103, 105, 110, 32, 122, 122>>),         \* 'begin zz'
-    L(<<101, 110, 100>>),                                \* 'end'
-    L(<<32, 97, 108, 112, 104, 97, 32, 49, 32>>),        \* ' alpha 1 '
-    L(<<98, 101, 116, 97>>),                             \* 'beta'
-    Inc(2) }                                             \* '%include f002.cfg'
-AlphaInc == {
-    L(<<98, 101, 116, 97>>),                             \* 'beta'
-    L(<<98, 101, 103, 105, 110, 32, 65>>),               \* 'begin A'
-    L(<<101, 110, 100>>) }                               \* 'end'
-AlphaLeaf == { L(<<103, 97, 109, 109, 97>>), L(<<101, 110, 100>>) }      \* 'gamma', 'end'
-AlphaRich == {
-    L(<<>>),                                             \* ''
-    L(<<32, 32, 32>>),                                   \* '   '
-    L(<<32, 32, 35, 32, 99>>),                           \* '  # c'
-    L(<<60, 120, 62>>),                                  \* '<x>'
-    L(<<98, 101, 103, 105, 110, 32, 32, 66, 32, 32, 101, 120, 116, 114, 97>>),   \* 'begin  B  extra'
-    L(<<98, 101, 103, 73, 78, 32, 97>>),                 \* 'begIN a'
-    L(<<66, 101, 103, 105, 110, 32, 65>>),               \* 'Begin A'      (ordinary: capital first letter)
-    L(<<98, 101, 103, 105, 110>>),                       \* 'begin'        (ordinary: no context word)
-    L(<<98, 101, 103, 105, 110, 9, 65>>),                \* 'begin\tA'     (ordinary: keyword needs a blank)
-    L(<<101, 110, 100, 32, 111, 102, 32, 105, 116>>),    \* 'end of it'
-    L(<<69, 78, 68>>),                                   \* 'END'          (ordinary)
-    L(<<101, 78, 100>>),                                 \* 'eNd'
-    L(<<101, 110, 100, 101, 114>>),                      \* 'ender'        (ordinary)
-    L(<<37, 112, 117, 116, 40, 107, 32, 118, 41>>),      \* '%put(k v)'
-    L(<<37>>),                                           \* '%'
-    L(<<37, 105, 110, 99, 108, 117, 100, 101>>),         \* '%include'     (directive: no file word)
-    L(<<37, 105, 110, 99, 108, 117, 100, 101, 32, 110, 111, 102, 105, 108, 101>>),   \* '%include nofile'
-    Inc(4),                                              \* a file without the magic line
-    Inc(5),                                              \* an empty file
-    Inc(2),
-    L(<<9, 98, 101, 116, 97, 9>>),                       \* '\tbeta\t'
-    L(<<115, 107, 105, 112, 109, 101>>),                 \* 'skipme'
-    L(<<98, 101, 103, 105, 110, 32, 110, 117, 108, 108>>),   \* 'begin null'
-    L(<<98, 101, 103, 105, 110, 32, 65>>),               \* 'begin A'
-    L(<<101, 110, 100>>),                                \* 'end'
-    L(<<37, 112, 114, 101, 112, 114, 111, 99, 32, 99, 97, 116>>),    \* '%preproc cat'  (outside the universe: spawns)
-    L(<<103, 97, 109, 109, 97>>) }                       \* 'gamma'
-AlphaMid == AlphaInc \cup {Inc(3), L(<<115, 107, 105, 112, 109, 101>>)}
+LongNs == <<20477, 20478, 20479, 20480, 20481, 40957, 40958, 40959, 41000>>
+LineTab == <<
+    L(<<35, 32, 99>>),                                   \*  1 '# c'
+    L(<<98, 101, 103, 105, 110, 32, 65>>),               \*  2 'begin A'
+    L(<<98, 101, 103, 105, 110, 32, 122, 122>>),         \*  3 'begin zz'
+    L(<<101, 110, 100>>),                                \*  4 'end'
+    L(<<32, 97, 108, 112, 104, 97, 32, 49, 32>>),        \*  5 ' alpha 1 '
+    L(<<98, 101, 116, 97>>),                             \*  6 'beta'
+    L(<<103, 97, 109, 109, 97>>),                        \*  7 'gamma'
+    L(<<115, 107, 105, 112, 109, 101>>),                 \*  8 'skipme'
+    L(<<98, 101, 103, 105, 110, 32, 66>>),               \*  9 'begin B'
+    L(<<>>),                                             \* 10 ''
+    L(<<32, 32, 32>>),                                   \* 11 '   '
+    L(<<32, 32, 35, 32, 99>>),                           \* 12 '  # c'
+    L(<<60, 120, 62>>),                                  \* 13 '<x>'
+    L(<<98, 101, 103, 105, 110, 32, 32, 66, 32, 32, 101, 120, 116, 114, 97>>),   \* 14 'begin  B  extra'
+    L(<<98, 101, 103, 73, 78, 32, 97>>),                 \* 15 'begIN a'
+    L(<<66, 101, 103, 105, 110, 32, 65>>),               \* 16 'Begin A'      (ordinary: capital first letter)
+    L(<<98, 101, 103, 105, 110>>),                       \* 17 'begin'        (ordinary: no context word)
+    L(<<98, 101, 103, 105, 110, 9, 65>>),                \* 18 'begin\tA'     (ordinary: the keyword needs a blank)
+    L(<<101, 110, 100, 32, 111, 102, 32, 105, 116>>),    \* 19 'end of it'
+    L(<<69, 78, 68>>),                                   \* 20 'END'          (ordinary)
+    L(<<101, 78, 100>>),                                 \* 21 'eNd'
+    L(<<101, 110, 100, 101, 114>>),                      \* 22 'ender'        (ordinary)
+    L(<<37, 112, 117, 116, 40, 107, 32, 118, 41>>),      \* 23 '%put(k v)'
+    L(<<37>>),                                           \* 24 '%'
+    L(<<37, 105, 110, 99, 108, 117, 100, 101>>),         \* 25 '%include'     (directive: no file word)
+    L(<<37, 105, 110, 99, 108, 117, 100, 101, 32, 110, 111, 102, 105, 108, 101>>),   \* 26 '%include nofile'
+    L(<<9, 98, 101, 116, 97, 9>>),                       \* 27 '\tbeta\t'
+    L(<<98, 101, 103, 105, 110, 32, 110, 117, 108, 108>>),   \* 28 'begin null'
+    L(<<37, 112, 114, 101, 112, 114, 111, 99, 32, 99, 97, 116>>)   \* 29 '%preproc cat' (outside the universe: spawns)
+    >>
+    \o [f \in 1 .. 255 |-> IncLine(f)]                                   \* 29 + f    '%include f<f>.cfg'
+    \o [i \in 1 .. 255 |-> L(S_begin_ \o CtxName(i))]                    \* 284 + i   'begin c<i>'
+    \o [j \in 1 .. Len(LongNs) |-> [x |-> LongNs[j], t |-> <<>>]]        \* 539 + j   x^n
+Inc(f)    == 29 + f
+BeginC(i) == 284 + i
+Long(n)   == 539 + (CHOOSE j \in 1 .. Len(LongNs) : LongNs[j] = n)
+ScanTab   == [i \in 1 .. Len(LineTab) |-> Scan(LineTab[i])]      \* constant: TLC evaluates it once
+LineMC(e) == LineTab[e]
+ScMC(e)   == ScanTab[e]
 
+AlphaBase == {1, 2, 3, 4, 5, 6, Inc(2)}
+AlphaInc  == {6, 2, 4}
+AlphaLeaf == {7, 4}
+AlphaMid  == AlphaInc \cup {Inc(3), 8}
+AlphaRich == (10 .. 29) \cup {2, 4, 7, 8, Inc(2), Inc(4), Inc(5)}     \* Inc(4): a file without the magic line, Inc(5): an empty file
 AlphaMC(a, f) ==
     CASE a = "base"  -> (IF f = 1 THEN AlphaBase ELSE AlphaInc)
       [] a = "rich"  -> (IF f = 1 THEN AlphaRich ELSE AlphaLeaf)
       [] a = "deep"  -> (CASE f = 1 -> AlphaBase [] f = 2 -> AlphaMid [] OTHER -> AlphaLeaf)
+
+(* parametric families *)
+T1 == 5
+T2 == 6
+END == 4
+BeginOf(k) == CASE k % 3 = 1 -> 2 [] k % 3 = 2 -> 9 [] OTHER -> 3        \* begin A, begin B, begin zz in turn
+FixedLenMC(c, f) ==
+    CASE c.fam = "nest"  -> 4 * c.n                     \* (begin text1)^n (end text2)^n
+      [] c.fam = "unbal" -> c.n + 1                     \* begin^n text1
+      [] c.fam = "chain" -> IF f <= c.n THEN 3 ELSE 1   \* file k: text1, %include file k+1, text2; the last file: text1
+      [] c.fam = "long"  -> 3                           \* text1, x^n, text2
+      [] c.fam = "reg"   -> 6                           \* begin <last registered> text1 end begin <second> text1 end
+      [] OTHER -> 0
+FixedLineMC(c, f, i) ==
+    CASE c.fam = "nest"  -> IF i <= 2 * c.n THEN (IF i % 2 = 1 THEN BeginOf((i + 1) \div 2) ELSE T1)
+                            ELSE (IF i % 2 = 1 THEN END ELSE T2)
+      [] c.fam = "unbal" -> IF i <= c.n THEN BeginOf(i) ELSE T1
+      [] c.fam = "chain" -> IF f <= c.n THEN (CASE i = 1 -> T1 [] i = 2 -> Inc(f + 1) [] OTHER -> T2) ELSE T1
+      [] c.fam = "long"  -> (CASE i = 1 -> T1 [] i = 2 -> Long(c.n) [] OTHER -> T2)
+      [] c.fam = "reg"   -> (CASE i = 1 -> BeginC(c.nreg) [] i = 4 -> BeginC(2) [] i \in {2, 5} -> T1 [] OTHER -> END)
 
 Cfg(fam, n, regfam, nreg, nullmode, kinds, maxlen, alpha) ==
     [fam |-> fam, n |-> n, regfam |-> regfam, nreg |-> nreg, names |-> <<>>, nullmode |-> nullmode,
@@ -66,10 +90,9 @@ EnumAll(m1, m2) == {Cfg("enum", 0, r[1], r[2], nm, <<"ok", "ok">>, <<m1, m2>>, "
 NestNs  == {9, 10, 11, 19, 20, 21, 39, 40, 41, 79, 80, 81, 159, 160, 161, 254, 255}
 ChainNs == {8, 9, 10, 11, 19, 20, 39, 40, 79, 80, 159, 160, 161, 253, 254}
 RegNs   == {19, 20, 21, 39, 40, 79, 80, 159, 160, 161, 254, 255}
-LongNs  == {20477, 20478, 20479, 20480, 20481, 40957, 40958, 40959, 41000}
 Families(nest, chain, regs) ==
     {Fam("nest", n) : n \in nest} \cup {Fam("unbal", n) : n \in {19, 20, 21, 160, 255}}
-    \cup {Fam("chain", n) : n \in chain} \cup {Fam("long", n) : n \in LongNs}
+    \cup {Fam("chain", n) : n \in chain} \cup {Fam("long", LongNs[j]) : j \in 1 .. Len(LongNs)}
     \cup {Cfg("reg", 0, "many", n, nm, <<"ok">>, <<0>>, "none") : n \in regs, nm \in {"first", "last"}}
     \cup {Cfg("enum", 0, "A", 0, "first", <<k>>, <<0>>, "base") : k \in {"missing", "badmagic", "empty"}}
 
@@ -83,15 +106,9 @@ ConfigsThoroughEnum ==
     \cup {Cfg("enum", 0, "AB", 0, "first", <<"ok", "ok", "ok">>, <<4, 2, 1>>, "deep")}
     \cup EnumAll(4, 2)
     \cup {Cfg("enum", 0, "AB", 0, nm, K5, <<3, 1, 0, 0, 0>>, "rich") : nm \in {"first", "builtin"}}
-ConfigsThoroughFam == Families(1 .. 255, 1 .. 254, 2 .. 255)
+ConfigsThoroughFam == Families(1 .. 255, 1 .. 254, 3 .. 255)
 \* the pinned mechanism (CapMod = 256): TLC must find the capacity wrap by itself
 ConfigsAsBuilt == {Fam("nest", 161), Fam("chain", 161), Cfg("reg", 0, "many", 161, "first", <<"ok">>, <<0>>, "none")}
-
-\* the scanner, tabulated once for the lines of the alphabets and families (TLC caches constant definitions)
-KnownLines == AlphaBase \cup AlphaInc \cup AlphaLeaf \cup AlphaRich \cup AlphaMid \cup {T1, T2, L(S_end)}
-              \cup {BeginOf(k) : k \in 1 .. 3} \cup {IncLine(f) : f \in 1 .. 255}
-ScanTab == [l \in KnownLines |-> Scan(l)]
-ScMC(l) == IF l \in KnownLines THEN ScanTab[l] ELSE Scan(l)
 
 ObsEmit(op, input, ret, post) == PrintT(ToJson([op |-> op, input |-> input, ret |-> ret, post |-> post]))
 ================================================================================
